@@ -126,8 +126,17 @@ type Exec struct {
 	Blocked  []string // threads that were not finished when the execution ended, with their pending operation
 	Trace    []string // when tracing is on
 	Notes    []string // rt.Note events (always recorded)
+	Events   []Event  // rt.Emit events (always recorded), in execution order
 	Aborted  string   // engine-level abort reason (step limit, replay divergence)
 	VirtualT time.Duration
+}
+
+// Event is a harness observation recorded through the scheduler (so that harness threads share no memory).
+type Event struct {
+	Thread int
+	Name   string
+	Label  string
+	Val    any
 }
 
 // Cost returns the deviation cost of the executed choice vector.
@@ -180,6 +189,7 @@ type sched struct {
 	lastT   *thread // the thread that ran most recently
 	idle    int     // consecutive clock jumps without any operation of a thread other than the woken sleeper
 	jumper  *thread // the sleeper woken by the last clock jump
+	swCost  int
 }
 
 var (
@@ -196,6 +206,10 @@ type Options struct {
 	Prefix   []int // choices to replay; afterwards choice 0 everywhere
 	Trace    bool
 	MaxSteps int // default 200000
+	// SwitchCost is the deviation cost of picking a non-default thread when the running thread is blocked or
+	// finished. 0 = classic preemption bounding (such switches are free and all enumerated); 1 = deviation
+	// bounding (the default successor is the lowest-numbered enabled thread, any other choice is a deviation).
+	SwitchCost int
 }
 
 // Run executes body as thread 0 under the scheduler and returns the execution record. Only one Run at a time per
@@ -205,7 +219,7 @@ func Run(o Options, body func()) *Exec {
 		panic("rt.Run: nested run")
 	}
 	s := &sched{
-		reqCh: make(chan request), prefix: o.Prefix, x: &Exec{}, trace: o.Trace, maxStep: o.MaxSteps,
+		reqCh: make(chan request), prefix: o.Prefix, x: &Exec{}, trace: o.Trace, maxStep: o.MaxSteps, swCost: o.SwitchCost,
 		rw: map[unsafe.Pointer]*rwState{}, mu: map[unsafe.Pointer]*muState{}, wg: map[unsafe.Pointer]*wgState{}, ch: map[unsafe.Pointer]*chState{},
 		done: make(chan struct{}),
 	}
@@ -385,7 +399,11 @@ func (s *sched) immediate(t *thread) bool {
 		c.closeTok = r.tok
 		// parked senders on a closed channel panic when they are scheduled (see enabled/perform).
 	case opNote:
-		s.x.Notes = append(s.x.Notes, r.label)
+		if r.val != nil || r.n == 1 {
+			s.x.Events = append(s.x.Events, Event{Thread: t.id, Name: t.name, Label: r.label, Val: r.val})
+		} else {
+			s.x.Notes = append(s.x.Notes, r.label)
+		}
 	default:
 		return false
 	}
@@ -612,7 +630,7 @@ func (s *sched) schedule() bool {
 		}
 		idx := 0
 		if len(en) > 1 {
-			cost := 0
+			cost := s.swCost
 			if curEnabled {
 				cost = 1
 			}
